@@ -478,6 +478,28 @@ fn check_built(rep: &mut Report, b: &Built, rng: &mut Rng, tb: &Tables) {
         s2.push('x');
         sops.push(s2);
     }
+    // operands that share memory with the value itself: views into its own text
+    // (a prefix, a suffix, the whole, the empty view at either end)
+    if let Some(own) = v.as_str().or_else(|| v.as_symbol()).or_else(|| v.as_keyword()) {
+        let cuts: Vec<usize> = (0..=own.len()).filter(|i| own.is_char_boundary(*i)).collect();
+        let mut views: Vec<&str> = vec![own, &own[..0], &own[own.len()..]];
+        if let Some(&m) = cuts.get(cuts.len() / 2) {
+            views.push(&own[..m]);
+            views.push(&own[m..]);
+        }
+        if cuts.len() > 2 {
+            views.push(&own[..cuts[cuts.len() - 2]]);
+            views.push(&own[cuts[1]..]);
+        }
+        for view in views {
+            let want = matches!(p, Payload::Str(s) if s == view);
+            let got = [*v == *view, *v == view, *view == *v, view == *v];
+            c.that("eq-str-view-of-own-text", &format!("{}..+{}", view.as_ptr() as usize - own.as_ptr() as usize, view.len()), got.iter().all(|g| *g == want), || {
+                format!("value == a view {:?} of its own text {:?} gives {:?}, model says {}", view, own, got, want)
+            });
+        }
+    }
+    // ... and a clone compared with views into the original (equal text, different memory)
     for so in sops.iter() {
         let want = matches!(p, Payload::Str(s) if s == so);
         let sref: &str = so.as_str();
